@@ -29,6 +29,7 @@ constexpr int POISON = -77;
 template <class Tag, int N> struct val
 {
   static constexpr int size = N;
+  static constexpr bool copyable = true;
   int v;
   explicit val(int x) : v(x) {}
   val(val const &o) : v(o.v) {}
@@ -238,3 +239,7 @@ inline int bin_base() { return vrt::thorough() ? 3 : 2; }
 void c04_optional_shards();
 void c04_either_shards();
 void c04_variant_shards();
+void c04_rich_val_shards();
+void c04_rich_heap_shards();
+void c04_rich_move_only_shards();
+void c04_poly_shards();
